@@ -12,7 +12,8 @@ RULE = ("MC: capacity model of the two hand-written string (de)serialisers: desc
 
 
 def sig(ev, d):
-    return "Serde %s via=%s src=%s ser=%s de=%s eq=%s" % (ev.get("variant"), ev.get("via"), ev.get("src"), ev.get("ser", "")[:20], ev.get("de", "")[:30], ev.get("eq"))
+    return "Serde via=%s src=%s ser=%s de=%s eq=%s same_tree=%s" % (ev.get("via"), ev.get("src"), ev.get("ser", "")[:12], ev.get("de", "")[:12], ev.get("eq"),
+                                                              ev.get("tree_in") == ev.get("tree_out"))
 
 
 def run(chk):
